@@ -399,6 +399,11 @@ func (dec *Decoder) ExpectAString(ptr *string) bool {
 	if dec.Literal(ptr) {
 		return true
 	}
+	if dec.err != nil {
+		// A literal was announced but couldn't be read (e.g. it was refused):
+		// what follows isn't an atom
+		return false
+	}
 	// TODO: accept unquoted resp-specials
 	return dec.ExpectAtom(ptr)
 }
